@@ -49,6 +49,14 @@ class tar_syncer(http_syncer, base.ExternalSyncer):
         repo_name = os.path.basename(basedir)
         self.tempdir = os.path.join(repos_dir, f".{repo_name}.update")
         self.tempdir_old = os.path.join(repos_dir, f".{repo_name}.old")
+        # a sync interrupted between moving the old tree aside and moving the
+        # new one in leaves nothing at the repo path; put the old tree back
+        if (
+            not os.path.exists(basedir)
+            and os.path.isdir(self.tempdir_old)
+            and os.listdir(self.tempdir_old)
+        ):
+            os.rename(self.tempdir_old, basedir)
         # remove tempdirs on exit
         atexit.register(partial(shutil.rmtree, self.tempdir, ignore_errors=True))
         atexit.register(partial(shutil.rmtree, self.tempdir_old, ignore_errors=True))
@@ -57,7 +65,9 @@ class tar_syncer(http_syncer, base.ExternalSyncer):
     def _post_download(self, path):
         super()._post_download(path)
 
-        # create tempdirs for staging
+        # create tempdirs for staging; an interrupted run may have left them behind
+        shutil.rmtree(self.tempdir, ignore_errors=True)
+        shutil.rmtree(self.tempdir_old, ignore_errors=True)
         try:
             os.makedirs(self.tempdir)
             os.makedirs(self.tempdir_old)
